@@ -98,27 +98,78 @@ class ImportConverter:
                     )
                 )  # type: ignore
         elif isinstance(module, ast.ImportFrom):
-            if module.level == 0:
-                new_imports = [
-                    AbsoluteImport(
-                        module_name,
-                        self._adjust_with_root_prefix(
+            new_imports = []
+            for alias in module.names:
+                if module.level == 0:
+                    new_imports.append(
+                        self._absolute_import_from(
+                            module_name,
                             module.module,  # type: ignore
+                            alias.name,
                             absolute_import_prefix,
                             all_internal_modules,
-                        ),
+                        )
                     )
-                ]
-            else:
-                new_imports = []
-                for alias in module.names:
+                else:
                     new_imports.append(
-                        RelativeImport(
-                            module_name, module.module, alias.name, module.level
+                        self._relative_import_from(
+                            module_name,
+                            module.module,
+                            alias.name,
+                            module.level,
+                            all_internal_modules,
                         )
                     )
 
         return new_imports
+
+    @classmethod
+    def _absolute_import_from(
+        cls,
+        importer: str,
+        imported_from: str,
+        imported_name: str,
+        absolute_import_prefix: str,
+        all_internal_modules: set[str],
+    ) -> Import:
+        """'from P import n' names the module P.n if that is an internal module, and P otherwise (n is then
+        a class, function, ... defined in P)."""
+        potential_submodule = cls._adjust_with_root_prefix(
+            f"{imported_from}.{imported_name}",
+            absolute_import_prefix,
+            all_internal_modules,
+        )
+
+        if potential_submodule in all_internal_modules:
+            return AbsoluteImport(importer, potential_submodule)
+
+        return AbsoluteImport(
+            importer,
+            cls._adjust_with_root_prefix(
+                imported_from, absolute_import_prefix, all_internal_modules
+            ),
+        )
+
+    @classmethod
+    def _relative_import_from(
+        cls,
+        importer: str,
+        imported_from: str | None,
+        imported_name: str,
+        level: int,
+        all_internal_modules: set[str],
+    ) -> Import:
+        """'from .P import n' names the module P.n (resolved against the importer's package) if that is an
+        internal module, and P otherwise."""
+        if imported_from is not None:
+            potential_submodule = RelativeImport(
+                importer, f"{imported_from}.{imported_name}", None, level
+            )
+
+            if potential_submodule.importee() in all_internal_modules:
+                return potential_submodule
+
+        return RelativeImport(importer, imported_from, imported_name, level)
 
     @classmethod
     def _adjust_with_root_prefix(
